@@ -73,7 +73,7 @@ def main():
     res = {"property": pid}
     if not os.path.exists(WT):
         sh("git -C /repo worktree add -q --detach %s HEAD" % WT)
-    sh("git checkout -q --detach $(git -C /repo rev-parse HEAD) && git checkout -- . && git clean -fdq -e _build", cwd=WT)
+    sh("git checkout -q --detach $(git -C /repo rev-parse HEAD) && git reset -q --hard && git clean -fdq -e _build", cwd=WT)
     patch = os.path.join(src, "patch.diff")
     rc0, out0 = run_demo(src, "clean")
     res["demo_unpatched"] = {"exit": rc0, "tail": out0[-300:]}
@@ -88,7 +88,7 @@ def main():
             rc, out = sh("BASELINE_REPO=%s %s/tools/baseline_off.sh" % (WT, V))
             res["baseline_with_patch"] = out.strip().splitlines()[-1] if out.strip() else "no output"
             res["baseline_ok"] = rc == 0
-    sh("git checkout -- . && git clean -fdq -e _build", cwd=WT)
+    sh("git reset -q --hard && git clean -fdq -e _build", cwd=WT)
     ok = rc0 == 0 and res.get("patch_applies") and res.get("demo_patched", {}).get("exit") not in (0, None) and (res.get("baseline_ok") or not suite)
     res["confirmed"] = bool(ok)
     if ok:
